@@ -12,8 +12,8 @@
 (* hook (no skip / read beyond the end).                                     *)
 (* Variants (negative controls): "wrap_add" (seed C06-d: saturating multiply *)
 (* but wrapping add), "wrap" (no saturation at all), "lz_invalid" (a literal *)
-(* of zeros only before '.'/'e' counted as having no digits), "exp_nocap"    *)
-(* is not a defect in the model and is not included.                         *)
+(* of zeros only before '.'/'e' counted as having no digits), "macro_bound"  *)
+(* (the Dec! macro's own exponent limit one too small: MacroAgrees, C18).    *)
 (* The done-states also print the action path of every string ("PATH ..."):  *)
 (* bin/plan.py keeps one string per distinct path and expands each K-digit   *)
 (* chunk to 8 (and 16, 24) digits for the crate - one implementation test    *)
@@ -125,6 +125,16 @@ Fin == /\ pc = "fin"
              ELSE IF e < 0 THEN Done([k |-> "ok", c |-> c, f |-> 0 - e], "ok_frac")
              ELSE IF coeff * 10^e > IMaxP THEN Done(Err, "mul_overflow")
              ELSE Done([k |-> "ok", c |-> c * 10^e, f |-> 0], IF e = 0 THEN "ok_int" ELSE "ok_scaled")
+\* fpdec-macros/src/lib.rs: Dec! runs the same str_to_dec and then folds the exponent with its own code (C18)
+MacroOutcome ==
+  LET e == (IF eneg THEN 0 - exp ELSE exp) - nfrac
+      c == IF neg THEN 0 - coeff ELSE coeff
+  IN IF 0 - e > MaxFracP THEN Err
+     ELSE IF e > (IF Variant = "macro_bound" THEN ExpMax - 1 ELSE ExpMax) THEN Err
+     ELSE IF e > 0 THEN (IF c * 10^e > IMaxP \/ c * 10^e < 0 - IMaxP - 1 THEN Err ELSE [k |-> "ok", c |-> c * 10^e, f |-> 0])
+     ELSE [k |-> "ok", c |-> c, f |-> 0 - e]
+FinTags == {"frac_limit", "exp_limit", "ok_frac", "mul_overflow", "ok_int", "ok_scaled"}
+MacroAgrees == (pc = "done" /\ path[Len(path)] \in FinTags) => MacroOutcome = res
 Next == Sign \/ Sign2 \/ LeadZero \/ Chunk("i") \/ Single("i") \/ Dot \/ Chunk("f") \/ Single("f") \/ Chk \/ ESign \/ EDig \/ Fin
 Spec == Init /\ [][Next]_vars
 
